@@ -275,22 +275,46 @@ theorem takeWhile_all (s : Bytes) (h : s.all isDigit = true) : s.takeWhile isDig
     simp only [List.all_cons, Bool.and_eq_true] at h
     simp [List.takeWhile, h.1, ih h.2]
 
+theorem dropWhile_nil_iff (s : Bytes) : (s.dropWhile isDigit).isEmpty = true ↔ s.all isDigit = true := by
+  induction s with
+  | nil => simp
+  | cons c r ih =>
+    by_cases hc : isDigit c = true
+    · simp [List.dropWhile, hc, ih]
+    · simp [List.dropWhile, hc]
+
+/-- clamping at every step is clamping at the end -/
+theorem satVal_fold (s : Bytes) : ∀ a A : Nat, a = min A noLimit →
+    s.foldl (fun acc c => min (acc * 10 + (c.toNat - 48)) noLimit) a
+      = min (s.foldl (fun acc c => acc * 10 + (c.toNat - 48)) A) noLimit := by
+  induction s with
+  | nil => intro a A h; simpa using h
+  | cons c r ih =>
+    intro a A h
+    simp only [List.foldl_cons]
+    apply ih
+    subst h
+    simp only [noLimit]
+    omega
+
+theorem satVal_eq (s : Bytes) : satVal s = min (decVal s) noLimit := by
+  simp only [satVal, decVal]
+  exact satVal_fold s 0 0 (by simp [noLimit])
+
+/-- what the range branch of `Match` computes, exactly -/
 theorem matchRange_iff (rs : List (Nat × Nat)) (s : Bytes) :
     matchRange rs s = true ↔
-      (s.takeWhile isDigit ≠ [] ∧ ∃ r ∈ rs, r.1 ≤ decVal (s.takeWhile isDigit) % 4294967296 ∧
-        decVal (s.takeWhile isDigit) % 4294967296 ≤ r.2) := by
-  cases s with
-  | nil => simp [matchRange]
-  | cons d r =>
-    by_cases hd : isDigit d = true
-    · simp only [matchRange, hd, if_true, u32_atoull, List.any_eq_true, Bool.and_eq_true, decide_eq_true_eq]
-      simp [List.takeWhile, hd]
-    · simp [matchRange, hd, List.takeWhile]
-
-theorem canon_all_digits (s : Bytes) (h : isCanonDecimal s = true) : s ≠ [] ∧ s.all isDigit = true := by
-  simp only [isCanonDecimal, Bool.and_eq_true] at h
-  refine ⟨?_, h.1.2⟩
-  intro hs; subst hs; simp at h
+      (isDecimal s = true ∧ ∃ r ∈ rs, r.1 ≤ min (decVal s) noLimit ∧ min (decVal s) noLimit ≤ r.2) := by
+  by_cases hall : s.all isDigit = true
+  · have ht := takeWhile_all s hall
+    have hd := (dropWhile_nil_iff s).2 hall
+    simp only [matchRange, ht, hd, Bool.and_true, satVal_eq, isDecimal, hall]
+    cases hs : s.isEmpty <;> simp
+  · have hd : (s.dropWhile isDigit).isEmpty = false := by
+      cases h : (s.dropWhile isDigit).isEmpty
+      · rfl
+      · exact absurd ((dropWhile_nil_iff s).1 h) hall
+    simp [matchRange, hd, isDecimal, hall]
 
 theorem setPattern_canMulti (pat : Bytes) : (setPattern pat).canMulti = canMatchMultiple pat := by
   unfold setPattern canMatchMultiple
@@ -309,17 +333,13 @@ theorem cwsScan_escapeAux (s : Bytes) : ∀ f : Bool, cwsScan f false false (esc
         intro h; subst h; exact ht (isRegexToken_bs f))
       simp [ht, cwsScan, ih, hc]
 
-theorem matchRange_canon (rs : List (Nat × Nat)) (s : Bytes) (hs : isCanonDecimal s = true) (hv : decVal s < 4294967296) :
-    matchRange rs s = true ↔ ∃ r ∈ rs, r.1 ≤ decVal s ∧ decVal s ≤ r.2 := by
-  obtain ⟨hne, hall⟩ := canon_all_digits s hs
-  rw [matchRange_iff, takeWhile_all s hall, Nat.mod_eq_of_lt hv]
-  simp [hne]
-
-theorem matchRange_toId (neg : Bool) (rs : List RangeSpec) (hwf : (Top.ranges neg rs).WF = true) (s : Bytes)
-    (hs : isCanonDecimal s = true) (hv : decVal s < 4294967296) :
-    matchRange (rs.map RangeSpec.toId) s = rs.any (·.has (decVal s)) := by
+/-- for a documented range list the stored `IDRange`s, compared against the clamped value, mean what the clauses say
+    for integers of any size -/
+theorem matchRange_toId (neg : Bool) (rs : List RangeSpec) (hwf : (Top.ranges neg rs).WF = true) (s : Bytes) :
+    matchRange (rs.map RangeSpec.toId) s = rangeDenote rs s := by
   simp only [Top.WF, Bool.and_eq_true, List.all_eq_true] at hwf
-  rw [Bool.eq_iff_iff, matchRange_canon _ s hs hv, List.any_eq_true]
+  rw [Bool.eq_iff_iff, matchRange_iff, rangeDenote, Bool.and_eq_true, List.any_eq_true]
+  refine and_congr Iff.rfl ?_
   constructor
   · rintro ⟨r, hr, h1, h2⟩
     obtain ⟨q, hq, rfl⟩ := List.mem_map.1 hr
@@ -327,7 +347,8 @@ theorem matchRange_toId (neg : Bool) (rs : List RangeSpec) (hwf : (Top.ranges ne
     have hq' := hwf.2 q hq
     cases q with
     | one n =>
-      simp only [RangeSpec.toId, idRange, Nat.min_self, Nat.max_self] at h1 h2
+      simp only [RangeSpec.WF, decide_eq_true_eq] at hq'
+      simp only [RangeSpec.toId, idRange, Nat.min_self, Nat.max_self, noLimit] at h1 h2
       simp only [RangeSpec.has, beq_iff_eq]; omega
     | span lo hi =>
       simp only [RangeSpec.WF, Bool.and_eq_true, decide_eq_true_eq] at hq'
@@ -336,15 +357,16 @@ theorem matchRange_toId (neg : Bool) (rs : List RangeSpec) (hwf : (Top.ranges ne
         simp only [RangeSpec.toId, idRange, Option.getD_none, noLimit] at h1 h2 hq' ⊢
         simp only [RangeSpec.has, Bool.and_true, decide_eq_true_eq]; omega
       | some hh =>
-        simp only [RangeSpec.toId, idRange, Option.getD_some] at h1 h2 hq' ⊢
+        simp only [RangeSpec.toId, idRange, Option.getD_some, noLimit] at h1 h2 hq' ⊢
         simp only [RangeSpec.has, Bool.and_eq_true, decide_eq_true_eq]; omega
   · rintro ⟨q, hq, hh⟩
     refine ⟨q.toId, List.mem_map.2 ⟨q, hq, rfl⟩, ?_⟩
     have hq' := hwf.2 q hq
     cases q with
     | one n =>
+      simp only [RangeSpec.WF, decide_eq_true_eq] at hq'
       simp only [RangeSpec.has, beq_iff_eq] at hh
-      simp only [RangeSpec.toId, idRange, Nat.min_self, Nat.max_self]; omega
+      simp only [RangeSpec.toId, idRange, Nat.min_self, Nat.max_self, noLimit]; omega
     | span lo hi =>
       simp only [RangeSpec.WF, Bool.and_eq_true, decide_eq_true_eq] at hq'
       cases hi with
@@ -353,7 +375,7 @@ theorem matchRange_toId (neg : Bool) (rs : List RangeSpec) (hwf : (Top.ranges ne
         simp only [RangeSpec.toId, idRange, Option.getD_none, noLimit] at hq' ⊢; omega
       | some h' =>
         simp only [RangeSpec.has, Bool.and_eq_true, decide_eq_true_eq] at hh
-        simp only [RangeSpec.toId, idRange, Option.getD_some] at hq' ⊢; omega
+        simp only [RangeSpec.toId, idRange, Option.getD_some, noLimit] at hq' ⊢; omega
 
 theorem canMatchMultiple_escape (s : Bytes) : canMatchMultiple (escape s) = false := by
   unfold canMatchMultiple canMatchMultipleAux
